@@ -62,15 +62,16 @@ func diffClass(exp, got string) string {
 func c06(x *ctx) {
 	r := x.run
 	thorough := x.tier == "thorough"
-	r.Rule = "for every corpus and generated program: every statement boundary (decided by the harness's conservative line scanner) x {blank line, comment line, indented comment line}, " +
+	r.Rule = "for every corpus and generated program: every statement boundary (decided by the harness's conservative line scanner) x {blank line, comment line, comment line with empty body; thorough: indented / tight comments, whitespace-only line}, " +
 		"every single-line string literal x {1,2 embedded newlines}, {strip, double} final newline; output of the edited program must equal the row-shifted output of the original; " +
 		"non-trivial = the original program produces output"
 	r.Assumptions = []string{"the harness's line scanner decides which boundaries are statement boundaries; it refuses files with multi-line literals it does not understand",
 		"records on the same row as a widened string literal may keep or shift their row (the statement does not say which)"}
 	progs := progSet(x)
-	edits := []struct{ name, text string }{{"blank", ""}, {"comment", "# c"}}
+	edits := []struct{ name, text string }{{"blank", ""}, {"comment", "# c"}, {"empty-comment", "#"}}
 	if thorough {
-		edits = append(edits, struct{ name, text string }{"indented-comment", "    # c"})
+		edits = append(edits, struct{ name, text string }{"indented-comment", "    # c"}, struct{ name, text string }{"indented-empty-comment", "  #"},
+			struct{ name, text string }{"tight-comment", "#c"}, struct{ name, text string }{"blank-with-spaces", "  "})
 	}
 	modes := [][]string{{"-i"}}
 	if thorough {
